@@ -1,5 +1,5 @@
 From Coq Require Extraction ExtrOcamlBasic.
-From Centro Require Import Base.Sx Model.Circle Model.CircleVec Model.Feret Model.HullFill Spec.MecSpec Spec.ChrystalHyp Spec.FeretSpec Spec.CalipersHyp Spec.FeretBrute Spec.FeretLower Spec.FillSpec.
+From Centro Require Import Base.Sx Model.Hull Model.HullW Model.Circle Model.CircleVec Model.Feret Model.HullFill Spec.MecSpec Spec.ChrystalHyp Spec.FeretSpec Spec.CalipersHyp Spec.FeretBrute Spec.FeretLower Spec.FillSpec.
 Extraction Language OCaml.
 Extraction "extracted/c14.ml" entry_mec_ok entry_chrystal_many entry_sweep_many entry_feret_max entry_feret_min_ok entry_feret_lower_ok
-  entry_fill_model entry_fill_check entry_fill_hyp entry_chrystal_hyp_many entry_chrystal_vec entry_strict_convex_many entry_bf_min_many.
+  entry_fill_model entry_fill_check entry_fill_hyp entry_chrystal_hyp_many entry_chrystal_vec entry_strict_convex_many entry_bf_min_many entry_hull_ijv entry_hull_ijv_w.
